@@ -7,7 +7,7 @@ Import ListNotations.
 Local Open Scope N_scope.
 
 Record vm_rel (t : tabs) (s : spec) (v : vmst) (B : N) : Prop := mkVR {
-  vr_heap : heap_rel t (sp_heap s) (v_heap v) B;
+  vr_heap : heap_rel VE t (sp_heap s) (v_heap v) B;
   vr_arr : varr_rel t (sp_arrs s) (v_arrs v) B;
   vr_st : v_st v = sp_st s
 }.
@@ -27,7 +27,7 @@ Proof. intros. exact H. Qed.
 (* the three parts that do not change keep their relation when a table grows *)
 Lemma vm_rel_heap_alloc : forall t s v B w h' o',
   vm_rel t s v B ->
-  heap_rel (mkTabs (t_heap t ++ [w]) (t_arr t)) (sp_heap s ++ [Some o']) h' (B + 1) ->
+  heap_rel VE (mkTabs (t_heap t ++ [w]) (t_arr t)) (sp_heap s ++ [Some o']) h' (B + 1) ->
   vm_rel (mkTabs (t_heap t ++ [w]) (t_arr t)) (with_heap s (sp_heap s ++ [Some o'])) (with_vheap v h') (B + 1).
 Proof.
   intros t s v B w h' o' [Hh Ha Hs] Hnew. constructor; cbn [sp_heap sp_arrs sp_st with_heap with_vheap v_heap v_arrs v_st].
@@ -46,11 +46,11 @@ Lemma vm_step_sim : forall t s v B o, vm_rel t s v B -> vm_pre s o = true -> B +
 Proof.
   intros t s v B o HR Hpre HB. pose proof HR as [Hh Ha Hst].
   unfold vm_pre in Hpre. apply andb_true_iff in Hpre. destruct Hpre as [Hwf Hx].
-  pose proof (hr_len _ _ _ _ Hh) as Hlh. pose proof (ar_len _ _ _ _ Ha) as Hla.
+  pose proof (hr_len _ _ _ _ _ Hh) as Hlh. pose proof (ar_len _ _ _ _ Ha) as Hla.
   destruct o as [size|src|h|h|h size|h src|k|k|size|src|input time max_len|input|esz data|a idx esz|a idx src esz|a| |];
     cbn [op_wf] in Hwf.
   - (* OHeapAlloc *)
-    destruct (hp_alloc_sim t (sp_heap s) (v_heap v) B (repeat (VNum 0) (N.to_nat size)) Hh) as (w & h' & E & Hnew);
+    destruct (hp_alloc_sim VE enc_transmute_rt t (sp_heap s) (v_heap v) B (repeat (VNum 0) (N.to_nat size)) Hh) as (w & h' & E & Hnew);
       [lia|apply vals_scoped_repeat0|].
     rewrite map_resolve_repeat0 in E.
     unfold step_sim_at; cbn zeta; cbn [spec_step vm_step]. rewrite E. cbn [fst snd tabs_after is_heap_alloc].
@@ -58,42 +58,42 @@ Proof.
     + intros t'' He. cbn [res_rel]. rewrite <- Hlh. eapply ext_nth_heap; eauto.
     + intros _. apply vm_rel_heap_alloc; auto.
   - (* OBoxAlloc *)
-    destruct (hp_alloc_sim t (sp_heap s) (v_heap v) B src Hh) as (w & h' & E & Hnew);
+    destruct (hp_alloc_sim VE enc_transmute_rt t (sp_heap s) (v_heap v) B src Hh) as (w & h' & E & Hnew);
       [lia|rewrite Hlh, Hla; exact Hwf|].
     unfold step_sim_at; cbn zeta; cbn [spec_step vm_step]. rewrite E. cbn [fst snd tabs_after is_heap_alloc].
     split; [apply ext_heap_snoc|]. split; [|split; [reflexivity|]].
     + intros t'' He. cbn [res_rel]. rewrite <- Hlh. eapply ext_nth_heap; eauto.
     + intros _. apply vm_rel_heap_alloc; auto.
   - (* OHeapRetain *)
-    destruct (hp_retain_sim t s (v_heap v) B h Hh Hwf) as (sh' & r & Es & Hr & Hf1 & Hf2 & Hnew).
+    destruct (hp_retain_sim VE t s (v_heap v) B h Hh Hwf) as (sh' & r & Es & Hr & Hf1 & Hf2 & Hnew).
     unfold step_sim_at; cbn zeta. cbn [vm_step]. rewrite Es.
-    destruct (hp_retain (v_heap v) (resolve t h)) as [h' i] eqn:E. cbn [fst snd] in *.
+    destruct (hp_retain VE (v_heap v) (resolve t h)) as [h' i] eqn:E. cbn [fst snd] in *.
     rewrite tabs_after_nonalloc by reflexivity.
     split; [apply ext_refl|]. split; [|split; [congruence|]].
     + intros t'' _. apply Hr.
     + intros _. constructor; cbn; auto.
       apply (varr_rel_mono _ _ _ B); [lia|exact Ha].
   - (* OHeapRelease *)
-    destruct (hp_release_sim t s (v_heap v) B h Hh Hwf) as (sh' & r & Es & Hr & Hf1 & Hf2 & Hnew).
+    destruct (hp_release_sim VE t s (v_heap v) B h Hh Hwf) as (sh' & r & Es & Hr & Hf1 & Hf2 & Hnew).
     unfold step_sim_at; cbn zeta. cbn [vm_step]. rewrite Es.
-    destruct (hp_release (v_heap v) (resolve t h)) as [h' i] eqn:E. cbn [fst snd] in *.
+    destruct (hp_release VE (v_heap v) (resolve t h)) as [h' i] eqn:E. cbn [fst snd] in *.
     rewrite tabs_after_nonalloc by reflexivity.
     split; [apply ext_refl|]. split; [|split; [congruence|]].
     + intros t'' _. apply Hr.
     + intros _. constructor; cbn; auto.
       apply (varr_rel_mono _ _ _ B); [lia|exact Ha].
   - (* OHeapLoad *)
-    destruct (hp_load_sim t s (v_heap v) B h size Hh Hwf) as (r & Es & Hr & Hf & Hext).
+    destruct (hp_load_sim VE t s (v_heap v) B h size Hh Hwf) as (r & Es & Hr & Hf & Hext).
     unfold step_sim_at; cbn zeta. cbn [vm_step]. rewrite Es. cbn [fst snd].
     rewrite tabs_after_nonalloc by reflexivity.
     split; [apply ext_refl|]. split; [exact Hext|]. split; [exact Hf|].
-    intros _. constructor; auto; [apply (heap_rel_mono _ _ _ B); [lia|exact Hh]|apply (varr_rel_mono _ _ _ B); [lia|exact Ha]].
+    intros _. constructor; auto; [apply (heap_rel_mono _ _ _ _ B); [lia|exact Hh]|apply (varr_rel_mono _ _ _ B); [lia|exact Ha]].
   - (* OHeapStore *)
     apply andb_true_iff in Hwf. destruct Hwf as [Hwf Hsrc].
-    destruct (hp_store_sim t s (v_heap v) B h src Hh Hwf) as (sh' & r & Es & Hr & Hf & Hnew);
+    destruct (hp_store_sim VE t s (v_heap v) B h src Hh Hwf) as (sh' & r & Es & Hr & Hf & Hnew);
       [rewrite Hlh, Hla; exact Hsrc|].
     unfold step_sim_at; cbn zeta. cbn [vm_step]. rewrite Es.
-    destruct (hp_store (v_heap v) (resolve t h) (map (resolve t) src)) as [h' i] eqn:E. cbn [fst snd] in *.
+    destruct (hp_store VE (v_heap v) (resolve t h) (map (resolve t) src)) as [h' i] eqn:E. cbn [fst snd] in *.
     rewrite tabs_after_nonalloc by reflexivity.
     split; [apply ext_refl|]. split; [|split; [exact Hf|]].
     + intros t'' _. apply Hr.
@@ -106,7 +106,7 @@ Proof.
     + apply Z.ltb_lt in Hx. destruct (Z.leb_spec U24_LIMIT k); [lia|]. cbn [fst snd].
       rewrite tabs_after_nonalloc by reflexivity.
       split; [apply ext_refl|]. split; [intros; exact I|]. split; [reflexivity|]. intros _.
-      constructor; cbn; auto; [apply (heap_rel_mono _ _ _ B); [lia|exact Hh]|apply (varr_rel_mono _ _ _ B); [lia|exact Ha]].
+      constructor; cbn; auto; [apply (heap_rel_mono _ _ _ _ B); [lia|exact Hh]|apply (varr_rel_mono _ _ _ B); [lia|exact Ha]].
   - (* OStatePop *)
     unfold step_sim_at; cbn zeta. cbn [spec_step vm_step]. rewrite Hst.
     destruct (k <? 0)%Z eqn:En; cbn [orb fst snd].
@@ -115,35 +115,35 @@ Proof.
       destruct (do_pop VmD (Z.to_N k) (sp_st s)) as [m|]; cbn [fst snd].
       * rewrite tabs_after_nonalloc by reflexivity.
         split; [apply ext_refl|]. split; [intros; exact I|]. split; [reflexivity|]. intros _.
-        constructor; cbn; auto; [apply (heap_rel_mono _ _ _ B); [lia|exact Hh]|apply (varr_rel_mono _ _ _ B); [lia|exact Ha]].
+        constructor; cbn; auto; [apply (heap_rel_mono _ _ _ _ B); [lia|exact Hh]|apply (varr_rel_mono _ _ _ B); [lia|exact Ha]].
       * rewrite tabs_after_fault. split; [apply ext_refl|]. split; [intros; reflexivity|]. split; [reflexivity|discriminate].
   - (* OStateGet *)
     unfold step_sim_at; cbn zeta. cbn [spec_step vm_step]. rewrite Hst.
     destruct (getn VmD size (sp_st s)) as [[l m]|]; cbn [fst snd].
     + rewrite tabs_after_nonalloc by reflexivity.
       split; [apply ext_refl|]. split; [intros; cbn [res_rel]; rewrite map_resolve_nums; reflexivity|]. split; [reflexivity|].
-      intros _. constructor; cbn; auto; [apply (heap_rel_mono _ _ _ B); [lia|exact Hh]|apply (varr_rel_mono _ _ _ B); [lia|exact Ha]].
+      intros _. constructor; cbn; auto; [apply (heap_rel_mono _ _ _ _ B); [lia|exact Hh]|apply (varr_rel_mono _ _ _ B); [lia|exact Ha]].
     + rewrite tabs_after_fault. split; [apply ext_refl|]. split; [intros; reflexivity|]. split; [reflexivity|discriminate].
   - (* OStateSet *)
     unfold step_sim_at; cbn zeta. cbn [spec_step vm_step]. rewrite Hst.
     destruct (setn VmD (map zw src) (sp_st s)) as [m|]; cbn [fst snd].
     + rewrite tabs_after_nonalloc by reflexivity.
       split; [apply ext_refl|]. split; [intros; exact I|]. split; [reflexivity|].
-      intros _. constructor; cbn; auto; [apply (heap_rel_mono _ _ _ B); [lia|exact Hh]|apply (varr_rel_mono _ _ _ B); [lia|exact Ha]].
+      intros _. constructor; cbn; auto; [apply (heap_rel_mono _ _ _ _ B); [lia|exact Hh]|apply (varr_rel_mono _ _ _ B); [lia|exact Ha]].
     + rewrite tabs_after_fault. split; [apply ext_refl|]. split; [intros; reflexivity|]. split; [reflexivity|discriminate].
   - (* OStateDelay *)
     unfold step_sim_at; cbn zeta. cbn [spec_step vm_step]. rewrite Hst.
     destruct (delay1 VmD max_len (zw input) (f64_time time) (sp_st s)) as [[r m]|]; cbn [fst snd].
     + rewrite tabs_after_nonalloc by reflexivity.
       split; [apply ext_refl|]. split; [intros; reflexivity|]. split; [reflexivity|].
-      intros _. constructor; cbn; auto; [apply (heap_rel_mono _ _ _ B); [lia|exact Hh]|apply (varr_rel_mono _ _ _ B); [lia|exact Ha]].
+      intros _. constructor; cbn; auto; [apply (heap_rel_mono _ _ _ _ B); [lia|exact Hh]|apply (varr_rel_mono _ _ _ B); [lia|exact Ha]].
     + rewrite tabs_after_fault. split; [apply ext_refl|]. split; [intros; reflexivity|]. split; [reflexivity|discriminate].
   - (* OStateMem *)
     unfold step_sim_at; cbn zeta. cbn [spec_step vm_step]. rewrite Hst.
     destruct (mem1 VmD (zw input) (sp_st s)) as [[r m]|]; cbn [fst snd].
     + rewrite tabs_after_nonalloc by reflexivity.
       split; [apply ext_refl|]. split; [intros; reflexivity|]. split; [reflexivity|].
-      intros _. constructor; cbn; auto; [apply (heap_rel_mono _ _ _ B); [lia|exact Hh]|apply (varr_rel_mono _ _ _ B); [lia|exact Ha]].
+      intros _. constructor; cbn; auto; [apply (heap_rel_mono _ _ _ _ B); [lia|exact Hh]|apply (varr_rel_mono _ _ _ B); [lia|exact Ha]].
     + rewrite tabs_after_fault. split; [apply ext_refl|]. split; [intros; reflexivity|]. split; [reflexivity|discriminate].
   - (* OArrayNew *)
     unfold step_sim_at; cbn zeta. cbn [spec_step vm_step].
@@ -158,13 +158,13 @@ Proof.
       split; [apply ext_arr_snoc|]. split; [|split; [reflexivity|]].
       * intros t'' He. cbn [res_rel]. rewrite <- Hla. eapply ext_nth_arr; eauto.
       * intros _. constructor; cbn [sp_heap sp_arrs sp_st with_arrs with_varrs v_heap v_arrs v_st]; auto.
-        apply (heap_rel_mono _ _ _ B); [lia|]. apply heap_rel_ext_arr. exact Hh.
+        apply (heap_rel_mono _ _ _ _ B); [lia|]. apply heap_rel_ext_arr. exact Hh.
   - (* OArrayGet *)
     destruct (vm_array_get_sim t s (v_arrs v) B a idx esz Ha Hwf Hx) as (r & Es & Hf & Hext).
     unfold step_sim_at; cbn zeta. cbn [vm_step]. rewrite Es. cbn [fst snd].
     rewrite tabs_after_nonalloc by reflexivity.
     split; [apply ext_refl|]. split; [exact Hext|]. split; [exact Hf|].
-    intros _. constructor; auto; [apply (heap_rel_mono _ _ _ B); [lia|exact Hh]|apply (varr_rel_mono _ _ _ B); [lia|exact Ha]].
+    intros _. constructor; auto; [apply (heap_rel_mono _ _ _ _ B); [lia|exact Hh]|apply (varr_rel_mono _ _ _ B); [lia|exact Ha]].
   - (* OArraySet *)
     apply andb_true_iff in Hwf. destruct Hwf as [Hwf Hsrc].
     destruct (vm_array_set_sim t s (v_arrs v) B a idx src esz Ha Hwf Hx) as (sa' & r & Es & Hf & Hr & Hnew);
@@ -175,26 +175,26 @@ Proof.
     split; [apply ext_refl|]. split; [|split; [exact Hf|]].
     + intros t'' _. apply Hr.
     + intros Hn. constructor; cbn [sp_heap sp_arrs sp_st with_arrs with_varrs v_heap v_arrs v_st]; auto.
-      * apply (heap_rel_mono _ _ _ B); [lia|exact Hh].
+      * apply (heap_rel_mono _ _ _ _ B); [lia|exact Hh].
       * apply (varr_rel_mono _ _ _ B); [lia|auto].
   - (* OArrayLen *)
     destruct (vm_array_len_sim t s (v_arrs v) B a Ha Hwf) as (r & Es & Hf & Hext).
     unfold step_sim_at; cbn zeta. cbn [vm_step]. rewrite Es. cbn [fst snd].
     rewrite tabs_after_nonalloc by reflexivity.
     split; [apply ext_refl|]. split; [intros; apply Hext|]. split; [exact Hf|].
-    intros _. constructor; auto; [apply (heap_rel_mono _ _ _ B); [lia|exact Hh]|apply (varr_rel_mono _ _ _ B); [lia|exact Ha]].
+    intros _. constructor; auto; [apply (heap_rel_mono _ _ _ _ B); [lia|exact Hh]|apply (varr_rel_mono _ _ _ B); [lia|exact Ha]].
   - (* ONow *)
     apply N.eqb_eq in Hx.
     unfold step_sim_at; cbn zeta. cbn [spec_step vm_step fst snd]. rewrite Hx.
     rewrite tabs_after_nonalloc by reflexivity.
     split; [apply ext_refl|]. split; [intros; reflexivity|]. split; [reflexivity|].
-    intros _. constructor; auto; [apply (heap_rel_mono _ _ _ B); [lia|exact Hh]|apply (varr_rel_mono _ _ _ B); [lia|exact Ha]].
+    intros _. constructor; auto; [apply (heap_rel_mono _ _ _ _ B); [lia|exact Hh]|apply (varr_rel_mono _ _ _ B); [lia|exact Ha]].
   - (* OSamplerate *)
     apply N.eqb_eq in Hx.
     unfold step_sim_at; cbn zeta. cbn [spec_step vm_step fst snd]. rewrite Hx.
     rewrite tabs_after_nonalloc by reflexivity.
     split; [apply ext_refl|]. split; [intros; reflexivity|]. split; [reflexivity|].
-    intros _. constructor; auto; [apply (heap_rel_mono _ _ _ B); [lia|exact Hh]|apply (varr_rel_mono _ _ _ B); [lia|exact Ha]].
+    intros _. constructor; auto; [apply (heap_rel_mono _ _ _ _ B); [lia|exact Hh]|apply (varr_rel_mono _ _ _ B); [lia|exact Ha]].
 Qed.
 
 Theorem vm_refines_spec : forall size now sr ops,
